@@ -39,6 +39,8 @@ def cases(text):
                 cur["delays"] = l[2:].strip()
             elif l.startswith("B "):
                 cur["bonds"].append(l)
+            elif l.startswith("SIC "):
+                cur.setdefault("sic", set()).add(int(l.split()[1]))
             elif l.startswith("IO "):
                 f = l.split()
                 cur["io"][(int(f[1]), f[2])] = ints(f[3]) if len(f) > 3 else []
@@ -91,7 +93,7 @@ def streams(lines, wtag, rtag):
 def compare(impl, model):
     ci, cm = cases(impl), cases(model)
     st = {"with_delays": 0, "cases": len(ci), "ticks": 0, "transfers": 0, "captures": 0, "back_to_back_prod": 0, "back_to_back_cons": 0,
-          "fanout": {}, "bonds_per_net": {}, "procs_per_net": {}, "relays": 0, "two_inputs_same_bond": 0, "port_not_0": 0, "env_nets": 0,
+          "fanout": {}, "bonds_per_net": {}, "procs_per_net": {}, "relays": 0, "two_inputs_same_bond": 0, "port_not_0": 0, "env_nets": 0, "sicv3_nets": 0,
           "vt_ok": 0, "rt_ok": 0, "hw_skipped_env": 0, "distinct": set()}
     fails = []
     if len(ci) != len(cm):
@@ -99,8 +101,10 @@ def compare(impl, model):
     for a, b in zip(ci, cm):
         P = a["P"]
         bonds = [bond_desc(l) for l in a["bonds"]]
+        sic = a.get("sic", set())
+        st["sicv3_nets"] += bool(sic)
         srcs = [a["src"].get(i, []) for i in range(P)]
-        base = {"env": next((l for l in a["lines"] if l.startswith("ENV ")), "ENV 0"), "P": P, "src": srcs, "arch": [a["arch"].get(i, "") for i in range(P)], "bonds": a["bonds"], "delays": a.get("delays", "")}
+        base = {"sic": sorted(a.get("sic", set())), "env": next((l for l in a["lines"] if l.startswith("ENV ")), "ENV 0"), "P": P, "src": srcs, "arch": [a["arch"].get(i, "") for i in range(P)], "bonds": a["bonds"], "delays": a.get("delays", "")}
         st["bonds_per_net"][str(len(bonds))] = st["bonds_per_net"].get(str(len(bonds)), 0) + 1
         st["procs_per_net"][str(P)] = st["procs_per_net"].get(str(P), 0) + 1
         for (bi, pp, op, cons) in bonds:
@@ -129,6 +133,8 @@ def compare(impl, model):
             st["distinct"].add((tuple(map(tuple, srcs)), tuple(a["bonds"]), t))
             bad = False
             for (bi, pp, op, cons) in bonds:
+                if bi in sic:
+                    continue      # read with sicv3: acknowledged, nothing transferred
                 k = str(bi)
                 ps, cs = dx["ps" + k], dx["cs" + k]
                 st["transfers"] += ps == "1"
@@ -142,6 +148,8 @@ def compare(impl, model):
                 break
         W, R = streams(a["lines"], "W", "R")
         for (bi, j), got in sorted(R.items()):
+            if bi in sic:
+                continue
             if not stream_ok(W.get(bi, []), got):
                 fails.append(dict(base, kind="property-fails-on-impl", world="Go simulator", bond=bi, written=W.get(bi, []), consumer=j, got=got,
                                   why="consumer %d of bond %d captured %s but the producer wrote %s" % (j, bi, got, W.get(bi, []))))
@@ -153,7 +161,7 @@ def compare(impl, model):
             continue
         if rt.startswith("RT ok"):
             st["rt_ok"] += 1
-        else:
+        elif not rt.startswith("RT skipped sicv3"):
             fails.append(dict(base, kind="rtl-model-correspondence", detail=rt))
         if vt.startswith("VT ok"):
             st["vt_ok"] += 1
@@ -161,6 +169,8 @@ def compare(impl, model):
             fails.append(dict(base, kind="hdl-correspondence", detail=vt))
         VW, VR = streams(b["lines"], "VW", "VR")
         for (bi, j), got in sorted(VR.items()):
+            if bi in sic:
+                continue
             if not stream_ok(VW.get(bi, []), got):
                 fails.append(dict(base, kind="property-fails-on-impl", world="emitted Verilog under BMV.Vlog", bond=bi, written=VW.get(bi, []),
                                   consumer=j, got=got,
@@ -168,7 +178,7 @@ def compare(impl, model):
         # a bond that stops moving in hardware while it keeps moving in the simulator is a deadlock
         if VW and len(G) >= 120:
             for bi, w in sorted(W.items()):
-                if len(w) >= 3 and len(VW.get(bi, [])) == 0 and vt.startswith("VT"):
+                if bi not in sic and len(w) >= 3 and len(VW.get(bi, [])) == 0 and vt.startswith("VT"):
                     fails.append(dict(base, kind="property-fails-on-impl", world="emitted Verilog under BMV.Vlog", bond=bi, written=[], consumer=0, got=[],
                                       why="bond %d transferred nothing in %d clocks of the hardware net while the simulator transferred %d values"
                                           % (bi, len(G), len(w))))
@@ -193,6 +203,8 @@ def replay_case(hbin, case, ticks=200):
         fh.write("N %d %d\nTICKS %d\nD %s\n%s\n" % (case["P"], len(case["bonds"]), ticks, case.get("delays", ""), case.get("env", "ENV 0")))
         for l in case["bonds"]:
             fh.write(l + "\n")
+        for b in case.get("sic") or []:
+            fh.write("SIC %d\n" % b)
         for i, s in enumerate(case["src"]):
             fh.write("M %d %s\n" % (i, case["arch"][i]))
             for l in s:
@@ -225,7 +237,7 @@ def run(rep):
         "models (no_deadlock_isa / no_deadlock_rtl) and additionally observed on the implementation (a net that stops transferring is reported)",
     ]
     tot = {"with_delays": 0, "cases": 0, "ticks": 0, "transfers": 0, "captures": 0, "back_to_back_prod": 0, "back_to_back_cons": 0,
-           "relays": 0, "two_inputs_same_bond": 0, "port_not_0": 0, "env_nets": 0, "vt_ok": 0, "rt_ok": 0, "hw_skipped_env": 0}
+           "relays": 0, "two_inputs_same_bond": 0, "port_not_0": 0, "env_nets": 0, "sicv3_nets": 0, "vt_ok": 0, "rt_ok": 0, "hw_skipped_env": 0}
     hist = {"fanout": {}, "bonds_per_net": {}, "procs_per_net": {}}
     distinct, fails, samples = set(), [], []
 
@@ -266,7 +278,7 @@ def run(rep):
     })
     real = [f for f in fails if f["kind"] == "property-fails-on-impl"]
     other = [f for f in fails if f["kind"] != "property-fails-on-impl"]
-    net = lambda f: {k: f.get(k) for k in ("P", "arch", "bonds", "src", "delays", "env")}
+    net = lambda f: {k: f.get(k) for k in ("P", "arch", "bonds", "sic", "src", "delays", "env")}
     if real:
         f = real[0]
         rep.violation(dict(net(f), property=PROP, kind=f["kind"], world=f["world"], bond=f["bond"], written=f["written"],
